@@ -51,7 +51,7 @@ class Ob:
     def __init__(self, name, harness, entry, props, defines=(), cbmc=(), backend="sat",
                  timeout=600, mem_gb=6, witness=True, ub=False, extra_src=(), functions=(),
                  bounds="", assumptions=(), outside=(), unwind_is_violation=False,
-                 nowitness_reason="", object_bits=None, describe="", ignore_unwind=(), post=None, shrink=None, witness_mode="all"):
+                 nowitness_reason="", object_bits=None, describe="", ignore_unwind=(), post=None, shrink=None, witness_mode="all", remove_bodies=()):
         self.name = name
         self.harness = harness
         self.entry = entry
@@ -74,6 +74,7 @@ class Ob:
         self.describe = describe
         self.ignore_unwind = list(ignore_unwind)   # unwinding assertions justified by a lemma obligation instead
         self.post = post
+        self.remove_bodies = list(remove_bodies)  # functions cut with goto-instrument --remove-function-body (CBMC build only)
         self.witness_mode = witness_mode  # all: every WITNESS point must be reachable; any: at least one (case-split obligations)
         self.shrink = shrink              # name of a textual array-shrink transformation (SHRINKS)
 
@@ -209,6 +210,15 @@ def compile_goto(ob, scratch, witness):
     rc, o, secs, _ = run(cmd, 300, 4, cwd=scratch)
     if rc != 0:
         return None, o
+    if ob.remove_bodies:
+        out2 = out[:-3] + "-cut.gb"
+        cmd = ["goto-instrument"]
+        for f in ob.remove_bodies:
+            cmd += ["--remove-function-body", f]
+        rc, o2, _, _ = run(cmd + [out, out2], 300, 4, cwd=scratch)
+        if rc != 0 or not os.path.exists(out2):
+            return None, o2
+        os.replace(out2, out)
     return out, o
 
 
